@@ -646,3 +646,297 @@ pub fn run_rollback_readers<S: MdkStorageProvider + Sync>(s: &S, u: &Universe, i
     report.reads += reads.load(Ordering::SeqCst);
     report
 }
+
+/// Rollback races: what two calls that touch ONE snapshot do to each other.
+/// (A) a snapshot taken once is rolled back to by `threads` threads at the same instant: in any
+/// sequential order the first call consumes it and the others find nothing, so exactly one call
+/// may succeed; afterwards the group is in the snapshotted state and the snapshot is gone.
+/// (B) a rollback to `S` races with a re-take of `S` (create under the same name replaces it):
+/// sequentially either the re-take comes first (the group keeps its current state, `S` is consumed)
+/// or the rollback comes first (the group is in the old state and a new `S` exists). Both calls
+/// succeed in both orders. Any other end state - old state without `S`, current state with `S` -
+/// was produced by no order of the two calls.
+pub fn run_rollback_races<S: MdkStorageProvider + Sync>(s: &S, u: &Universe, threads: usize, rounds: usize, seed: u64) -> StressReport {
+    use std::sync::Barrier;
+    let _section = super::stall::section("rollbacks racing on one snapshot (run_rollback_races)");
+    let mut report = StressReport::default();
+    let g = 0usize;
+    let gid = u.gid(g);
+    let put = |v: u64| -> bool {
+        let spec = GroupSpec { g, nid: 0, nid_of: None, name: 0, desc: 0, admins: 1, epoch: 3, state: 0, img: 0, last: None, su: 1 };
+        let mut grp = spec.build(u);
+        grp.name = name_of(v);
+        s.save_group(grp).is_ok()
+    };
+    let get = || -> u64 { s.find_group_by_mls_group_id(&gid).ok().flatten().map(|x| parse_name(&x.name)).unwrap_or(u64::MAX) };
+    let has = |name: &str| -> bool { s.list_group_snapshots(&gid).map(|l| l.iter().any(|(n, _)| n == name)).unwrap_or(false) };
+    if !put(1) {
+        report.violations.push(("rollback-races-init-failed".into(), "save_group".into()));
+        return report;
+    }
+    for r in 0..rounds {
+        let (v0, v1) = (tag(90, 2 * r as u64 + 1), tag(90, 2 * r as u64 + 2));
+        let name = format!("race-{seed:x}-{r}");
+        // ---- (A) --------------------------------------------------------------------------------
+        if !put(v0) || s.create_group_snapshot(&gid, &name).is_err() || !put(v1) {
+            report.violations.push(("rollback-races-setup-failed".into(), format!("round {r}")));
+            return report;
+        }
+        let bar = Barrier::new(threads);
+        let oks = AtomicU64::new(0);
+        std::thread::scope(|sc| {
+            for _ in 0..threads {
+                let (bar, oks, gid, name) = (&bar, &oks, &gid, &name);
+                sc.spawn(move || {
+                    bar.wait();
+                    if s.rollback_group_to_snapshot(gid, name).is_ok() {
+                        oks.fetch_add(1, Ordering::SeqCst);
+                    }
+                });
+            }
+        });
+        report.histories_ops += threads as u64;
+        let n_ok = oks.load(Ordering::SeqCst);
+        if n_ok != 1 {
+            report.violations.push(("snapshot-consumed-other-than-once".into(), format!("round {r}: {threads} concurrent rollbacks to a snapshot taken once: {n_ok} succeeded")));
+            return report;
+        }
+        let (st, still) = (get(), has(&name));
+        if st != v0 || still {
+            report.violations.push(("state-after-concurrent-rollbacks".into(), format!("round {r}: group holds {st:x} (snapshotted {v0:x}), snapshot still listed: {still}")));
+            return report;
+        }
+        // ---- (B) --------------------------------------------------------------------------------
+        if s.create_group_snapshot(&gid, &name).is_err() || !put(v1) {
+            report.violations.push(("rollback-races-setup-failed".into(), format!("round {r} (B)")));
+            return report;
+        }
+        let bar = Barrier::new(2);
+        let (rb_ok, ct_ok) = (AtomicBool::new(false), AtomicBool::new(false));
+        std::thread::scope(|sc| {
+            let (bar, rb_ok, ct_ok, gid, name) = (&bar, &rb_ok, &ct_ok, &gid, &name);
+            sc.spawn(move || {
+                bar.wait();
+                rb_ok.store(s.rollback_group_to_snapshot(gid, name).is_ok(), Ordering::SeqCst);
+            });
+            sc.spawn(move || {
+                bar.wait();
+                if (r + seed as usize) % 3 == 0 {
+                    std::thread::yield_now();
+                }
+                ct_ok.store(s.create_group_snapshot(gid, name).is_ok(), Ordering::SeqCst);
+            });
+        });
+        report.histories_ops += 2;
+        let (st, still) = (get(), has(&name));
+        let (rb, ct) = (rb_ok.load(Ordering::SeqCst), ct_ok.load(Ordering::SeqCst));
+        let sequential = rb && ct && ((st == v1 && !still) || (st == v0 && still));
+        if !sequential {
+            report.violations.push((
+                "rollback-vs-retake-matches-no-order".into(),
+                format!("round {r}: rollback ok={rb}, re-take ok={ct}; the group holds {} and the snapshot is {}: no order of the two calls gives that", if st == v0 { "the OLD state".to_string() } else if st == v1 { "the CURRENT state".to_string() } else { format!("{st:x}") }, if still { "listed" } else { "gone" }),
+            ));
+            return report;
+        }
+        // if the re-take came second its CONTENT must be the state after the rollback (the old one):
+        // a snapshot that holds the state from before the rollback was taken "in the middle"
+        if still {
+            if s.rollback_group_to_snapshot(&gid, &name).is_err() || get() != v0 {
+                report.violations.push(("retaken-snapshot-holds-the-state-from-before-the-rollback".into(), format!("round {r}: the rollback was ordered before the re-take (old state, snapshot listed), but rolling back to the re-taken snapshot gives {:x}, not the old state {v0:x}", get())));
+                return report;
+            }
+        }
+        // leave nothing behind for the next round
+        let _ = s.release_group_snapshot(&gid, &name);
+    }
+    report
+}
+
+/// Generic race engine: ANY two or three operations of the storage operation language (vstore/ops.rs:
+/// the mdk traits and the OpenMLS storage provider, snapshots included) are released from a barrier
+/// on one storage instance, after a random sequential prefix. The executable reference model decides:
+/// the results of the calls and the complete read-out afterwards must equal what SOME order of the
+/// same calls produces on the model (k! candidate orders, k <= 3). The model then continues from
+/// that order. This is a full linearizability check of each small history against the sequential
+/// specification, for every operation pair the generator can draw - not only the registers.
+pub fn run_op_races<S: MdkStorageProvider + Sync>(s: &S, u: &Universe, trials: usize, seed: u64) -> StressReport {
+    use super::model::{Model, diff};
+    use super::ops::{Gen, GenCfg, Op, Res, apply, dump};
+    use std::sync::Barrier;
+    let _section = super::stall::section("pairs and triples of arbitrary operations (run_op_races)");
+    let mut report = StressReport::default();
+    let mut rng = Rng::new(seed ^ 0x0b5e_55ed);
+    let cfg = GenCfg { snapshot_weight: 30, mls_weight: 15, message_weight: 25, over_limit: false, nid_collision: false };
+    let mut g = Gen::new(&mut rng, cfg);
+    let mut model = Model::default();
+    const PERMS2: [&[usize]; 2] = [&[0, 1], &[1, 0]];
+    const PERMS3: [&[usize]; 6] = [&[0, 1, 2], &[0, 2, 1], &[1, 0, 2], &[1, 2, 0], &[2, 0, 1], &[2, 1, 0]];
+    // the contract's preconditions, as in the sequential differential (props/storage_seq.rs): a
+    // snapshot is only taken of an existing group; a group only claims another group's nostr id
+    // while that group holds it
+    fn contract(mut op: Op, g: &mut Gen, model: &Model, u: &Universe) -> Op {
+        if let Op::SnapCreate { g: gi, .. } = &op
+            && !model.group_exists(*gi)
+        {
+            op = Op::SaveGroup(GroupSpec { nid_of: None, name: 0, desc: 0, ..g.group_spec(*gi) });
+        }
+        if let Op::SaveGroup(spec) = &mut op
+            && let Some(o) = spec.nid_of
+            && (o == spec.g || model.groups.get(&o).and_then(|x| x.record.as_ref()).map(|r| r.nostr_group_id) != Some(u.nids[o][spec.nid]))
+        {
+            spec.nid_of = None;
+        }
+        op
+    }
+    {
+        let first = Op::SaveGroup(GroupSpec { nid_of: None, name: 0, desc: 0, ..g.group_spec(0) });
+        let _ = apply(s, u, &first);
+        model.apply(u, &first);
+    }
+    // Candidate set: every sequential state that explains everything observed so far. Two orders of a
+    // race can give the same results and the same read-out and still differ in what is not read out
+    // (the CONTENT of a snapshot taken during the race): both stay candidates until a later operation
+    // tells them apart. Only an EMPTY set is a violation.
+    let mut cands: Vec<Model> = vec![model];
+    let mut trail: std::collections::VecDeque<String> = Default::default();
+    let mut note = |trail: &mut std::collections::VecDeque<String>, x: String| {
+        trail.push_back(x);
+        if trail.len() > std::env::var("VERIF_TRAIL").ok().and_then(|x| x.parse().ok()).unwrap_or(14usize) {
+            trail.pop_front();
+        }
+    };
+    // identity of a candidate = its read-out plus the read-out of every snapshot's content (the
+    // derived Debug of the model redacts secrets and cannot tell two candidates apart)
+    let key = |m: &Model| {
+        let mut k = format!("{:?}", m.dump(u));
+        for ((gi, n), snap) in &m.snapshots {
+            let mut t = Model::default();
+            t.groups.insert(*gi, snap.clone());
+            k.push_str(&format!("|snap {gi}/{n}: {:?}", t.dump(u)));
+        }
+        k
+    };
+    for t in 0..trials {
+        for _ in 0..g.rng.range(1, 6) {
+            let op = g.next();
+            let op = contract(op, &mut g, &cands[0], u);
+            let a = apply(s, u, &op);
+            note(&mut trail, format!("seq {op:?} -> ok={}", matches!(a, Res::Ok(_))));
+            let before = cands.len();
+            cands = cands
+                .into_iter()
+                .filter_map(|mut m| {
+                    let b = m.apply(u, &op);
+                    (a == b).then_some(m)
+                })
+                .collect();
+            if cands.is_empty() {
+                report.violations.push((format!("not-linearizable|revealed-by={}", op.kind()), format!("trial {t}: the sequential call {op:?} returned ok={} which none of the {before} sequential explanations of the earlier races allows; trail: {}", matches!(a, Res::Ok(_)), trail.iter().cloned().collect::<Vec<_>>().join(" ;; "))));
+                return report;
+            }
+        }
+        let k = if g.rng.chance(30) { 3 } else { 2 };
+        let ops: Vec<Op> = (0..k)
+            .map(|_| {
+                let op = g.next();
+                contract(op, &mut g, &cands[0], u)
+            })
+            .collect();
+        // candidates that the read-out before the race already refutes drop out
+        let now = dump(s, u);
+        let before = cands.len();
+        let mut first_diff = String::new();
+        cands.retain(|m| {
+            let d = diff(&m.dump(u), &now, |_| true);
+            if let Some(x) = d.first()
+                && first_diff.is_empty()
+            {
+                first_diff = format!("{}: expected `{}` got `{}`", x.0, crate::util::short(&x.1, 100), crate::util::short(&x.2, 100));
+            }
+            d.is_empty()
+        });
+        if cands.is_empty() {
+            report.violations.push(("not-linearizable|revealed-by=read-out".into(), format!("trial {t}: the read-out matches none of the {before} sequential explanations of the earlier races; {first_diff}; trail: {}", trail.iter().cloned().collect::<Vec<_>>().join(" ;; "))));
+            return report;
+        }
+        let bar = Barrier::new(k);
+        // self-test mode of the checker (VERIF_OPRACE_SERIAL=1): the "race" is executed in a random
+        // ORDER on one thread - trivially linearizable, so any alarm then is the checker's own
+        let serial = std::env::var("VERIF_OPRACE_SERIAL").is_ok();
+        let results: Vec<Res> = if serial {
+            let mut order: Vec<usize> = (0..k).collect();
+            g.rng.shuffle(&mut order);
+            let mut rs: Vec<Res> = vec![Res::Err; k];
+            for i in order {
+                rs[i] = apply(s, u, &ops[i]);
+            }
+            rs
+        } else {
+            std::thread::scope(|sc| {
+                let hs: Vec<_> = ops
+                    .iter()
+                    .map(|op| {
+                        let bar = &bar;
+                        sc.spawn(move || {
+                            bar.wait();
+                            apply(s, u, op)
+                        })
+                    })
+                    .collect();
+                hs.into_iter().map(|h| h.join().unwrap_or(Res::Err)).collect()
+            })
+        };
+        report.histories_ops += k as u64;
+        note(&mut trail, format!("RACE {} -> ok={:?}", ops.iter().map(|o| format!("{o:?}")).collect::<Vec<_>>().join(" || "), results.iter().map(|r| matches!(r, Res::Ok(_))).collect::<Vec<_>>()));
+        let kinds: Vec<&str> = {
+            let mut v: Vec<&str> = ops.iter().map(|o| o.kind()).collect();
+            v.sort();
+            v
+        };
+        report.keys.insert(format!("race:{}", kinds.join("+")));
+        let actual = dump(s, u);
+        let perms: &[&[usize]] = if k == 2 { &PERMS2 } else { &PERMS3 };
+        let mut next: Vec<Model> = vec![];
+        let mut seen: BTreeSet<String> = BTreeSet::new();
+        let mut nearest: Option<(usize, String)> = None;
+        for c in &cands {
+            for perm in perms {
+                let mut m = c.clone();
+                let mut rs: Vec<Option<Res>> = vec![None; k];
+                for &i in perm.iter() {
+                    rs[i] = Some(m.apply(u, &ops[i]));
+                }
+                let same_results = rs.iter().zip(results.iter()).all(|(a, b)| a.as_ref() == Some(b));
+                let d = diff(&m.dump(u), &actual, |_| true);
+                if same_results && d.is_empty() {
+                    if seen.insert(key(&m)) {
+                        next.push(m);
+                    }
+                    continue;
+                }
+                let score = d.len() + if same_results { 0 } else { 100 };
+                if nearest.as_ref().map(|(sc, _)| score < *sc).unwrap_or(true) {
+                    let why = if !same_results { format!("results differ (order {:?} gives ok={:?})", perm, rs.iter().map(|r| matches!(r, Some(Res::Ok(_)))).collect::<Vec<_>>()) } else { format!("read-out differs in {}: expected `{}` got `{}`", d[0].0, crate::util::short(&d[0].1, 120), crate::util::short(&d[0].2, 120)) };
+                    nearest = Some((score, why));
+                }
+            }
+        }
+        if next.is_empty() {
+            report.violations.push((
+                format!("not-linearizable|ops={}", kinds.join("+")),
+                format!("trial {t}: {} released together returned ok={:?}; results and read-out match no order of these calls on the reference model ({} sequential explanations of the history so far were tried); nearest order: {}", ops.iter().map(|o| format!("{o:?}")).collect::<Vec<_>>().join(" || "), results.iter().map(|r| matches!(r, Res::Ok(_))).collect::<Vec<_>>(), cands.len(), nearest.map(|x| x.1).unwrap_or_default()),
+            ));
+            return report;
+        }
+        if next.len() > 48 {
+            // too many indistinguishable explanations to carry on soundly: stop this instance here
+            report.keys.insert("candidate-set-overflow".into());
+            return report;
+        }
+        if next.len() > 1 {
+            report.overlapping_pairs += 1;
+        }
+        cands = next;
+    }
+    report
+}
